@@ -237,6 +237,11 @@ pub fn run_c11(ctx: &Ctx) -> i32 {
     let mut runs = 0u64;
     let mut classes: BTreeMap<String, u64> = BTreeMap::new();
     let mut xvio: Vec<Violation> = vec![];
+    // "identical whether source and destination live on the same instance or on two": for the
+    // failing calls the model leaves open (missing source side or destination parent) the outcome
+    // and what is left of the SOURCE are collected per (source backend, call, source, destination)
+    // and compared across the instance pairings
+    let mut by_case: BTreeMap<(String, String, usize, String), Vec<(String, String, Vec<String>)>> = BTreeMap::new();
     for (ca, cb, mode) in &pairs {
         let plabel = format!(
             "{}->{}{}",
@@ -260,7 +265,7 @@ pub fn run_c11(ctx: &Ctx) -> i32 {
                 vec!["copy_file", "move_file"],
             ));
         }
-        for (src_entries, src, calls) in &sources {
+        for (src_idx, (src_entries, src, calls)) in sources.iter().enumerate() {
             for call in calls {
                 for dest in dests {
                     runs += 1;
@@ -407,6 +412,17 @@ pub fn run_c11(ctx: &Ctx) -> i32 {
                             }
                         }
                     }
+                    if matches!(exp, Expect::Err { unchanged: false, .. }) {
+                        let left: Vec<String> = snap_a
+                            .dump()
+                            .into_iter()
+                            .filter(|l| crate::config::dump_line_is_below(l, src))
+                            .collect();
+                        by_case
+                            .entry((ca.label(), call.to_string(), src_idx, dest.to_string()))
+                            .or_default()
+                            .push((plabel.clone(), if matches!(out, Ok(Ok(_))) { "Ok".into() } else { "Err".into() }, left));
+                    }
                 }
             }
         }
@@ -417,6 +433,26 @@ pub fn run_c11(ctx: &Ctx) -> i32 {
             xvio.len()
         );
     }
+    let mut compared = 0u64;
+    for ((ca, call, _si, dest), runs_of_case) in &by_case {
+        let (l0, o0, s0) = &runs_of_case[0];
+        for (l, o, sdump) in &runs_of_case[1..] {
+            compared += 1;
+            if o != o0 || sdump != s0 {
+                let dcls = match dest.as_str() {
+                    "/m/d" => "missing-parent",
+                    _ => "parent-is-file",
+                };
+                xvio.push(Violation {
+                    property: "C11".into(),
+                    signature: format!("{}|{}|{}|result-depends-on-the-instance-pairing", ca, call, dcls),
+                    summary: format!("{} from {} to {:?}: [{}] gives {} and leaves the source as {:?}, [{}] gives {} and leaves {:?}", call, ca, dest, l0, o0, s0, l, o, sdump),
+                    replay: json!({"engine": "xfer", "pairs": [l0, l], "call": call, "dest": dest}),
+                });
+            }
+        }
+    }
+    classes.insert("failing-calls-compared-across-instance-pairings".into(), compared);
     vio.extend(crate::handle::dedupe(xvio));
     let mut xs = Stats {
         label: "cross-filesystem transfers (one call each from harness-built states)".into(),
